@@ -415,4 +415,90 @@ def verifyDirectives (v : Verify) (grpc : Bool) : List (List Char × List Char) 
   [(pre ++ "_ssl_server_name".toList, "on".toList), (pre ++ "_ssl_verify".toList, "on".toList),
    (pre ++ "_ssl_name".toList, v.hostname), (pre ++ "_ssl_trusted_certificate".toList, trustedCert v)]
 
+/-! ### the Secret resolver's cache (graph/secret.go: secretResolver.resolve) -/
+
+/-- the verdict of validating Secret `ns/name` once: missing / wrong type / malformed pair / ok -/
+def secretVerdict (secrets : List SecretObj) (k : Name × Name) : SecretRes :=
+  match findSecret secrets k.1 k.2 with
+  | none => .missing
+  | some s => if !s.isTLS then .wrongType else if !s.pairOK then .malformed else .ok
+
+/-- `resolvedSecrets`: key ↦ the stored verdict (`entry.err`) -/
+abbrev ResCache := List ((Name × Name) × SecretRes)
+
+/-- one call `r.resolve(k)`: a cached entry answers; otherwise the Secret is validated, the verdict is STORED
+(whatever it is) and returned -/
+def resolveCached (secrets : List SecretObj) (cache : ResCache) (k : Name × Name) : SecretRes × ResCache :=
+  match cache.lookup k with
+  | some v => (v, cache)
+  | none => let v := secretVerdict secrets k; (v, (k, v) :: cache)
+
+/-- the verdicts of a sequence of calls on one resolver (one graph build: every HTTPS listener in turn) -/
+def resolveSeq (secrets : List SecretObj) : ResCache → List (Name × Name) → List SecretRes
+  | _, [] => []
+  | cache, k :: ks => let r := resolveCached secrets cache k; r.1 :: resolveSeq secrets r.2 ks
+
+/-- a resolver that registers the entry up front and forgets to store the error of ONE branch (the malformed pair):
+the cached entry then says `ok` (regression detector; `Props/C16.resolve_unstored_error_false`) -/
+def resolveCachedUnstored (secrets : List SecretObj) (cache : ResCache) (k : Name × Name) : SecretRes × ResCache :=
+  match cache.lookup k with
+  | some v => (v, cache)
+  | none =>
+    let v := secretVerdict secrets k
+    (v, (k, if v = .malformed then .ok else v) :: cache)
+
+def resolveSeqUnstored (secrets : List SecretObj) : ResCache → List (Name × Name) → List SecretRes
+  | _, [] => []
+  | cache, k :: ks => let r := resolveCachedUnstored secrets cache k; r.1 :: resolveSeqUnstored secrets r.2 ks
+
+/-! ### processed BackendTLSPolicies and what a backendRef gets (graph/backend_tls_policy.go: processBackendTLSPolicies;
+graph/backend_refs.go: findBackendTLSPolicyForService + createBackendRef) -/
+
+/-- an entry of the processed-policies map -/
+structure ProcBTP where
+  pol : BTP
+  valid : Bool
+  ignored : Bool
+  ca : Name
+  deriving DecidableEq, Repr
+
+/-- processBackendTLSPolicies: EVERY policy gets an entry — an ignored one (ancestor status list full) as invalid -/
+def processBtp (cms : List CMObj) (pols : List BTP) : List ProcBTP :=
+  pols.map fun b => ⟨b, (validateBTP cms b).1, (validateBTP cms b).2, b.caName cms⟩
+
+/-- the variant that does not track ignored policies (regression detector; `Props/C16.ignored_policy_dropped_false`) -/
+def processBtpDropping (cms : List CMObj) (pols : List BTP) : List ProcBTP :=
+  (processBtp cms pols).filter fun p => !p.ignored
+
+def targetsSvc (b : BTP) (refNs refName : Name) : Bool := b.ns = refNs && b.targets.contains refName
+
+/-- findBackendTLSPolicyForService over the processed map -/
+def findProc (procs : List ProcBTP) (refNs refName : Name) : Option ProcBTP :=
+  procs.foldl (fun acc p =>
+    if targetsSvc p.pol refNs refName then
+      match acc with
+      | some cur => if btpLess p.pol cur.pol then some p else some cur
+      | none => some p
+    else acc) none
+
+/-- what the backendRef of an existing Service ends up with -/
+inductive BackendTLS
+  /-- the backendRef is invalid: the rule answers 500, the Service is not reached -/
+  | invalid
+  /-- no policy: proxied over plain http -/
+  | plain
+  /-- proxied over TLS, verified -/
+  | verify (v : Verify)
+  deriving DecidableEq, Repr
+
+/-- createBackendRef: an error of findBackendTLSPolicyForService (selected policy not valid) invalidates the
+backendRef; a valid policy becomes VerifyTLS (convertBackendTLS); no policy = plain -/
+def backendTLSOf (procs : List ProcBTP) (refNs refName : Name) : BackendTLS :=
+  match findProc procs refNs refName with
+  | none => .plain
+  | some p =>
+    if !p.valid then .invalid
+    else if p.ca ≠ [] then .verify ⟨certBundleId (p.pol.ns, p.ca), p.pol.hostname, []⟩
+    else .verify ⟨[], p.pol.hostname, systemCAPath⟩
+
 end NGF.Tls
